@@ -52,3 +52,4 @@ struct Cmd { const char* name; cmd_fn fn; };
 
 int cmd_namematch(int, char**);
 int cmd_trace(int, char**);
+int cmd_json(int, char**);
